@@ -734,7 +734,7 @@ def one_history(ctx, length):
 
 
 def campaign(ctx):
-    n_hist = ctx.n(300)
+    n_hist = ctx.n(300) if ctx.tier == "quick" else ctx.n(100)     # thorough: 2000 histories of up to 40 operations
     max_len = 12 if ctx.tier == "quick" else 40
     for _ in range(n_hist):
         length = ctx.r.randrange(2, max_len + 1)
